@@ -6,7 +6,8 @@ package main
 //
 //	reset                          new empty directory, no DB
 //	open <vol> <load> <dp> <fp> <mp> <mpn>
-//	put/putext/del/flags/sync/nosync/defrag/close/get/browse/peek/count   (as oracle_c19)
+//	put/putext/del/flags/sync/nosync/defrag/close/get/browse/browseall/peek/count   (as oracle_c19)
+//	lastorder                      -> <k,k,…|->  the keys the last browse / browseall / peek handed to the walk function, in order
 //	snap <0|1>                     copy the directory at every vhook.Point of the following requests
 //	crash                          -> <tag>=<snapshot dir>;…  for the last state-changing request
 //	crashat <x>                    die at snapshot x mod #snapshots of the last state-changing request: abandon the DB,
@@ -113,6 +114,7 @@ type worker struct {
 	nsnap  int
 	snaps  []string // tag=path of the last state-changing request
 	ndir   int
+	order  []uint64 // keys handed to the walk function by the last browse / browseall / peek, in that order
 }
 
 func (w *worker) wait() {
@@ -352,24 +354,39 @@ func (w *worker) handle(t []string) string {
 			return mut("none")
 		}
 		return mut("some " + vlib.Hex(v))
-	case "browse", "peek":
+	case "browse", "browseall", "peek":
 		w.beginRead()
 		walk := map[uint64]uint32{}
-		if t[0] == "browse" {
+		if t[0] != "peek" {
 			walk = parseWalk(t[1])
 		}
 		m := map[uint64][]byte{}
+		w.order = w.order[:0]
 		f := func(k qdb.KeyType, v []byte) uint32 {
 			m[uint64(k)] = append([]byte{}, v...)
+			w.order = append(w.order, uint64(k))
 			return walk[uint64(k)]
 		}
 		if t[0] == "browse" {
 			w.db.Browse(f)
 			return mut(kvStr(m))
 		}
+		if t[0] == "browseall" {
+			w.db.BrowseAll(f)
+			return mut(kvStr(m))
+		}
 		n := w.db.Count()
 		w.db.BrowseAll(f)
 		return mut(strconv.Itoa(n) + " " + kvStr(m))
+	case "lastorder": // the keys the last browse / browseall / peek handed to the walk function, in that order
+		if len(w.order) == 0 {
+			return "-"
+		}
+		var ps []string
+		for _, k := range w.order {
+			ps = append(ps, strconv.FormatUint(k, 10))
+		}
+		return strings.Join(ps, ",")
 	case "count":
 		return strconv.Itoa(w.db.Count())
 	}
